@@ -190,6 +190,82 @@ func checkC12(c c12Case) (c12Verdict, bool, error) {
 	return c12Checked, wild, nil
 }
 
+// c12PUA maps every byte that is not valid UTF-8 to a private-use character
+// of its own (and back), so that the rune-based reference matcher treats it
+// as the distinct character it is.
+func c12PUA(s string) string {
+	var b strings.Builder
+	for s != "" {
+		r, w := utf8.DecodeRuneInString(s)
+		if r == utf8.RuneError && w == 1 {
+			b.WriteRune(0xE000 + rune(s[0]))
+		} else {
+			b.WriteString(s[:w])
+		}
+		s = s[w:]
+	}
+	return b.String()
+}
+
+func c12UnPUA(s string) string {
+	var b strings.Builder
+	for _, r := range s {
+		if r >= 0xE000 && r < 0xE100 {
+			b.WriteByte(byte(r - 0xE000))
+		} else {
+			b.WriteRune(r)
+		}
+	}
+	return b.String()
+}
+
+// checkC12Bytes: a pattern with a byte that is not valid UTF-8. An error is
+// a fine answer (go.sh's: such a pattern is malformed); any other answer has
+// to be the right one when every such byte is a character of its own.
+func checkC12Bytes(c c12Case) (errored bool, err error) {
+	var got string
+	var gerr error
+	if e := guard(func() error {
+		got, gerr = pattern.Match(c.Patterns, pattern.Mode(c.Mode), c.Subject)
+		return nil
+	}); e != nil {
+		return false, fmt.Errorf("Match(%q, %s, %q) %v", c.Patterns, modeName(c.Mode), c.Subject, e)
+	}
+	if gerr != nil && gerr != pattern.NoMatch {
+		return true, nil
+	}
+	var pats []*ref.Pattern
+	for _, p := range c.Patterns {
+		pt, perr := ref.ParsePattern(c12PUA(p))
+		if perr != nil {
+			return false, nil // malformed or not modelled for other reasons: nothing to compare
+		}
+		pats = append(pats, pt)
+	}
+	s := []rune(c12PUA(c.Subject))
+	mode := pattern.Mode(c.Mode)
+	prefix := mode&pattern.Prefix != 0
+	aff := ref.Affixes(pats, prefix, s)
+	if len(aff) == 0 {
+		if gerr != pattern.NoMatch {
+			return false, fmt.Errorf("Match(%q, %s, %q): the pattern holds an ill-formed byte; got %q, but it matches nothing when that byte is a character of its own (an error would do as well)", c.Patterns, modeName(c.Mode), c.Subject, got)
+		}
+		return false, nil
+	}
+	k := aff[len(aff)-1]
+	if mode&pattern.Smallest != 0 && mode&pattern.Largest == 0 {
+		k = aff[0]
+	}
+	want := c12UnPUA(string(s[:k]))
+	if !prefix {
+		want = c12UnPUA(string(s[len(s)-k:]))
+	}
+	if gerr == pattern.NoMatch || got != want {
+		return false, fmt.Errorf("Match(%q, %s, %q): the pattern holds an ill-formed byte; got %q, %v, want %q (or an error)", c.Patterns, modeName(c.Mode), c.Subject, got, gerr, want)
+	}
+	return false, nil
+}
+
 // c12Neighbours returns calls whose arguments would collide with c's under
 // a careless cache key (the patterns joined by some separator, or split at
 // one): run directly before and after c they show state that leaks from one
@@ -242,6 +318,10 @@ func init() {
 			}
 		}
 		return nil
+	})
+	reg("C12", "bytes", func(c c12Case) error {
+		_, err := checkC12Bytes(c)
+		return err
 	})
 	reg("C12", "match", func(c c12Case) error {
 		_, _, err := checkC12(c)
@@ -529,6 +609,33 @@ func TestC12(t *testing.T) {
 			}
 		}
 		st.Note("exhaustive: all pairs of patterns of <= 3 symbols over {a é ? *} x subjects of <= 3 symbols over {a é U+1F600} x 4 modes")
+	}
+
+	// (a⁗′) bytes that are not valid UTF-8 in the pattern: as a member of a
+	// bracket expression, at the top level, escaped, as a range end
+	if sh == 1%nsh {
+		var n, errs int64
+		for _, b := range []string{"\xff", "\xfe", "\xc3", "\x80"} {
+			for _, p := range []string{"[" + b + "]", "[a" + b + "]", "[!" + b + "]", "[[:alpha:]" + b + "]", b, "a" + b, `\` + b, "[\\" + b + "]", "*" + b, "[" + b + "-" + b + "]", "?" + b + "*", "[" + b + "a]*"} {
+				for _, subj := range []string{b, "\xfe", "\xff", "\uFFFD", "a", "a" + b, b + "a", "a\uFFFD", "\xfea", ""} {
+					for _, m := range c12Modes {
+						c := c12Case{Patterns: []string{p}, Mode: m, Subject: subj}
+						errored, err := checkC12Bytes(c)
+						if err != nil {
+							fail(t, "C12", "bytes", c, "%v", err)
+						}
+						n++
+						if errored {
+							errs++
+						}
+					}
+				}
+			}
+		}
+		st.EvalN(n, n)
+		st.ClassN("ill_formed_byte_in_pattern", n)
+		st.ClassN("ill_formed_byte_in_pattern_answered_with_an_error", errs)
+		st.Note("%d cases with a byte that is not valid UTF-8 in the pattern (bracket member, negated, next to a class, top level, escaped, range end) on subjects with the same byte, another such byte and U+FFFD: an error, or the answer that is right when every such byte is a character of its own", n)
 	}
 
 	// (a'') long patterns (regular expression engines limit repeat counts and program sizes)
